@@ -1,6 +1,7 @@
 package h
 
 import (
+	"strings"
 	"time"
 
 	storetypes "github.com/cosmos/cosmos-sdk/store/types"
@@ -248,7 +249,11 @@ func H_C09_BeaconRegister() {
 	be := NewBeaconEnv(now)
 	pre := setupBeacon(be, 1)
 	signer := rt.Choose(3)
-	msg := &beacontypes.MsgRegisterBeacon{Moniker: rt.Str("m.moniker"), Name: rt.Str("m.name"), Owner: Addr(signer).String()}
+	owner := Addr(signer).String()
+	if rt.Choose(2) == 1 {
+		owner = strings.ToUpper(owner) // bech32 also accepts the all-upper-case spelling of the same address
+	}
+	msg := &beacontypes.MsgRegisterBeacon{Moniker: rt.Str("m.moniker"), Name: rt.Str("m.name"), Owner: owner}
 	rt.Assume(msg.ValidateBasic() == nil)
 	rt.Assume(pre.Highest < 18446744073709551615)
 	srv := beaconkeeper.NewMsgServerImpl(be.K)
@@ -271,7 +276,7 @@ func H_C09_BeaconRegister() {
 	rt.Assert("C09.highest-incremented", hi == pre.Highest+1)
 	b, found := be.K.GetBeacon(be.Ctx, pre.Highest)
 	want := beacontypes.Beacon{BeaconId: pre.Highest, Moniker: msg.Moniker, Name: msg.Name, RegTime: uint64(now.Unix()), Owner: Addr(signer).String()}
-	rt.Assert("C09.stored-exactly-submitted", rt.And(found, b == want))
+	rt.Assert("C09+C20.stored-exactly-submitted-owner-canonical", rt.And(found, b == want))
 	l, fl := be.K.GetBeaconStorageLimit(be.Ctx, pre.Highest)
 	rt.Assert("C08.limit-starts-at-default", rt.And(fl, l.InStateLimit == be.Params.DefaultStorageLimit))
 	old, _ := be.K.GetBeacon(be.Ctx, pre.ID)
